@@ -8,7 +8,8 @@ WANT = ('C03',)
 RULE = (
     'Every record over rain in {0, =s, >s} x increment in {fall, =j*dt, '
     '>j*dt} x gap masks up to the stated number of samples, on (dt, s, j) '
-    'combinations including steps of 20 and 10 minutes, is loaded and '
+    'combinations including steps of 20 and 10 minutes and thresholds of '
+    '2^-30, 2^30 and exactly 0, is loaded and '
     'classified by the real code (in-memory database and main(argv) on '
     'files); every recorded storm / rise row is compared with the maximal '
     'runs recomputed with rational arithmetic from the loaded tables, and '
@@ -61,7 +62,7 @@ def spaces(tier):
             out.append(cs.db_space(n, cs.COMBOS[n % 4], 0, binary=True))
         for n in (2, 3, 4):
             out.append(cs.db_space(n, cs.COMBOS[n % 4], 2, cli=True))
-    for combo in cs.EXTREME:
+    for combo in cs.EXTREME + cs.ZERO:
         out.append(cs.db_space(3, combo, 1))
         if tier == 'thorough':
             out.append(cs.db_space(5, combo, 1))
